@@ -3,6 +3,7 @@ from checks.tsutil import *
 from checks.orswotgen import *
 
 ID = 'C05'
+LEAN_MODULES = ['C05', 'C05b']
 RULE = ('one case = two replicas (OrSWotSet<2>, plus OrSWotSet<1> for the diff itself) built from subsets of a shared list of inserts/deletes with distinct stamps '
         '(<=3 origins, <=5 keys; window or gap-free-prefix construction; boundary gaps), then diff(a,b) [checked against the definition of "lacks" by the python oracle on the dumps '
         'and cut-off probes], the diff applied to a on the repair source in one of: removals-first, modifications-first, 6 seeded interleavings; then diff again (must be empty), '
